@@ -1,6 +1,7 @@
 (** * Polygon: model of src/polygon3d.rs (holes, hole cutting, merging holes into one outline).
     Panic sites: 40 `expect` in From<Loop3D>, 41 push unwrap in get_closed_loop, 21 Index out of
-    bounds, 42 `% 0` in the hole walk. *)
+    bounds, 42 `% 0` in the hole walk.  Error classes: 50 normals not parallel, 51 hole vertex not inside,
+    52 encloses an existing hole, 53 inner-loop index out of bounds ([inner]). *)
 From Coq Require Import ZArith List Bool Arith.
 From G3 Require Import Model.Num Model.Base Model.Vec Model.Segment Model.Loop.
 Import ListNotations.
@@ -145,6 +146,14 @@ Section Polygon.
     | [] => (P, [])
     | h :: tl => let '(P', o) := poly_step P h in let '(P'', os) := poly_run P' tl in (P'', o :: os)
     end.
+
+  (** [Polygon3D::inner(i)]: borrows the i-th inner loop; error class 53 = "Index out of bounds when trying to retrieve
+      inner loop" (the slice index behind the guard cannot fail: site 21 is unreachable) *)
+  Definition poly_inner (P : Poly) (i : nat) : res (Loop K) :=
+    if Nat.ltb i (length (pinner P)) then
+      match nth_error (pinner P) i with Some l => Ok l | None => Panic 21%N end
+    else Err 53%N.
+  Definition poly_n_inner_loops (P : Poly) : nat := length (pinner P).
 
   Definition poly_contains_segment (P : Poly) (s : Seg K) : bool :=
     loop_contains_segment (pouter P) s || existsb (fun h => loop_contains_segment h s) (pinner P).
